@@ -449,7 +449,13 @@ def narrow(R, P):
     # "stored in the smallest form that loses nothing": an integer head is 9 bytes from 2^32 on, a single float 5; the integer
     # form may be chosen ahead of the single form only below 2^32 in magnitude (or after the single form was tried)
     small = any(op_ in ("<", "<=") and kd <= 2.0 ** 32 for op_, kd, txt in range_guards(uint[0]))
-    later_single = [s for s in single if s.line > uint[0].line]
+    def nonfinite_arm(e):
+        """e is reached only for NaN / infinities (the isfinite test's failing arm, however the test is spelt)"""
+        for t, pol in guard_txt(e):
+            if "isfinite" in t and isinstance(pol, bool) and ((t.split("isfinite")[0].count("!") % 2 == 1) == pol):
+                return True
+        return False
+    later_single = [s for s in single if not nonfinite_arm(s)]
     after_single = bool(later_single) and all(ev_dominates(f, s, uint[0], dom) for s in later_single)
     R.check(small or after_single, "NARROW", "integer-form-not-larger-than-single", where(f, uint[0]), "the integer form is used ahead of the single form only where its head is not longer",
             "the integer form is chosen before the single-float form for every exact integer in the int64 range: an integral double of magnitude >= 2^32 that a single float represents exactly (2^32, 2^40, -2^35) is written with a 9-byte integer head instead of the 5-byte single-float form")
@@ -486,8 +492,8 @@ def narrow(R, P):
             R.broken(str(ex))
     R.check(okm, "NARROW", "negative-mapping", where(f, neg[0]), "negative n is written as -1-n, non-negative n as n (NUM, any equivalent spelling)",
             "the integer argument is not the CBOR mapping (n for n >= 0, -1-n for n < 0): %s" % detm)
-    first = [s for s in single if s.line < uint[0].line]
-    ok1 = len(first) == 1 and any("isfinite" in t or "__builtin_isfinite" in t or "isinf" in t for t, pol in guard_txt(first[0]))
+    first = [s for s in single if nonfinite_arm(s)]
+    ok1 = len(first) == 1
     R.check(ok1, "NARROW", "non-finite-to-single", where(f, first[0]) if first else f.name, "NaN / infinities are written as single")
     if later_single:
         ls = later_single[0]
@@ -507,7 +513,7 @@ def narrow(R, P):
         R.check(okr, "NARROW", "single-range-guard", where(f, ls), "the cast to float happens only within +-FLT_MAX")
         R.check(cast_of_value(RU.arg(f, ls.node, 1), is_flt), "NARROW", "round-trip-operands", where(f, ls), "the single float written is (float)value",
                 "the value written as single float is %s, not (float)value" % argstr(f, ls.node, 1))
-    R.check(dbl[0].line > max(s.line for s in single), "NARROW", "double-last", where(f, dbl[0]), "the double form is the fall-through")
+    R.check(not any(x in RU.reach_from(f, dbl[0]) for x in single + uint + neg), "NARROW", "double-last", where(f, dbl[0]), "the double form is the fall-through")
 
 
 def wiring(R, P):
@@ -650,7 +656,23 @@ def skip(R, P):
         by.setdefault(frozenset(labs), []).append(e)
     groups = {tuple(sorted(k)): v for k, v in by.items()}
     tag = [v for k, v in groups.items() if "TAG" in k]
-    R.check(len(tag) == 1 and len(tag[0]) == 1 and not any(tag[0][0].blk in b for b in loops.values()), "SKIP", "tag:one-further-item", where(f, tag[0][0]) if tag else f.name, "a tag is followed by exactly one item")
+    tag_loop = None
+    if not tag:
+        # the same thing written as a loop in front of the dispatch: while the cached element is a tag, drop it and decode the
+        # next ELEMENT (one head each round, no item consumed); the item the tags belong to is then skipped by the dispatch
+        tagv = P.enums.get("AWS_CBOR_TYPE_TAG")
+        sw = [b.id for b in f.blocks.values() if b.term == "switch"]
+        for h_, body_ in loops.items():
+            g_ = RU.cmp_norm(f, f.blocks[h_].cond, True) if f.blocks[h_].cond is not None else None
+            if not g_ or g_[1] != "==" or g_[2] is None or f.is_const(RU.uncast(f, g_[2])) != tagv or not f.show(RU.uncast(f, g_[0])).endswith("cached_context.type"):
+                continue
+            inb = [e for e in f.all_events() if e.kind == "call" and e.blk in body_ and (e.node.get("callee") or "") in ("s_cbor_decode_next_element", f.name)]
+            if len(inb) == 1 and inb[0].node["callee"] == "s_cbor_decode_next_element" and sw and all(h_ in dom.get(x, ()) for x in sw):
+                tag_loop = inb[0]
+    if tag_loop is not None:
+        R.ok("SKIP", "tag:one-further-item", where(f, tag_loop), "tags are dropped one head at a time in front of the dispatch, which then skips exactly one item")
+    else:
+        R.check(len(tag) == 1 and len(tag[0]) == 1 and not any(tag[0][0].blk in b for b in loops.values()), "SKIP", "tag:one-further-item", where(f, tag[0][0]) if tag else f.name, "a tag is followed by exactly one item")
     # how often a loop runs, whichever way it counts: `for (v = 0; v < N; v++)` or `for (v = N; v > 0; v--)` (v written
     # nowhere else in the loop); returns the node N (or a constant)
     def trip_count(header, body):
